@@ -93,6 +93,10 @@ def gen_corpus(rng, n_random):
             kw = {nm: BAD[nm][pick % len(BAD[nm])] for nm in chosen}
             body = record(rand_record(rng)) if pick else bytes(56)
             out.append(("defects-" + "+".join("%s=%s" % (nm, kw[nm]) for nm in chosen), 0, header(**kw) + body))
+    # what a daemon leaves when it dies inside the (re-)creation of the file: the wiped header comes first, the
+    # zeroed body after it, so the file may end anywhere behind the header
+    for ln in (16, 17, 24, 40, 64, 71, 72):
+        out.append(("death-inside-wipe-%d" % ln, 0, (header(ver=0, gen=0) + bytes(56))[:ln]))
     out.append(("magic-then-zeros", 0, header()[:8] + bytes(64)))
     out.append(("old-magic-doc-bytes", 0, bytes([0x41, 0x4D, 0x5A, 0x4E, 0x43, 0x42, 0x02, 0x00]) + valid[8:]))
     out.append(("text", 0, b"foobarbaz"))
